@@ -90,6 +90,7 @@ func ruleC08NewSize(e *Env) {
 		kEmpty  = `unit==""`
 		kRound  = "roundtrip"
 		kHi     = "hi!=0"
+		kByte   = `unit=="B"`
 		mulTerm = "math/bits.Mul64"
 	)
 	kZU := "lookup#1(*size." + e.vname("size", "zeroUnits") + ",unit)"
@@ -101,6 +102,8 @@ func ruleC08NewSize(e *Env) {
 			return kZero, true
 		case as == "unit" && bs == `""`:
 			return kEmpty, true
+		case as == "unit" && bs == `"B"`:
+			return kByte, true // a fast path for the unit whose multiplier is 1 (C08.tab: B = 1)
 		case (as == kZU || as == kUTV) && bs == "true":
 			return as, true
 		case strings.HasPrefix(as, "conv[") && strings.Contains(as, "value") && bs == "value":
@@ -119,7 +122,12 @@ func ruleC08NewSize(e *Env) {
 		return []int{0, 1}
 	}
 	mk := func() []pred.Val { return []pred.Val{pred.Sym{Name: "value"}, pred.Sym{Name: "unit"}} }
-	leaves, err := extractTree(e.P.SSA, fn, e.Permuted("size", "newSize", fn, mk), nil, nil, keyOf, domain)
+	pruneUnit := func(assign map[string]int) bool { // a unit cannot be both "" and "B"
+		a, okA := assign[kEmpty]
+		b, okB := assign[kByte]
+		return !(okA && okB && a == 0 && b == 0)
+	}
+	leaves, err := extractTree(e.P.SSA, fn, e.Permuted("size", "newSize", fn, mk), nil, nil, keyOf, domain, pruneUnit)
 	if err != nil {
 		e.S.Unk(rule, site, "table", err.Error(), e.Pos(fn))
 		return
@@ -184,6 +192,11 @@ func ruleC08NewSize(e *Env) {
 			gv = "lo"
 		}
 		got := gv + " / " + sizeErrType(t[1])
+		// the unit "B" multiplies by one: returning the value itself is the exact product (its high word is zero)
+		if get(kByte) == 1 && asked && val > 0 && get(kRound) == 1 && got == "conv(value) / nil" {
+			e.S.Ok(rule, site, construct, "outcome conv(value) / nil for the unit B (multiplier 1)", e.Pos(fn))
+			continue
+		}
 		switch {
 		case want == "?":
 			e.S.Bad(rule, site, construct, "outcome "+got+" is reached without the tests exactness needs (sign, integrality round trip, unit table, high word of the 128-bit product)", e.Pos(fn), "")
@@ -448,13 +461,29 @@ func ruleC08Bytes(e *Env) {
 				continue
 			}
 			gotOK, _ := boolOf(t[1])
+			// a fast path for the size zero: zero is representable in every kind; a size is never negative
+			nAtoms := len(lf.Assign)
+			if z, askedZ := lf.Assign["s?0"]; askedZ {
+				nAtoms--
+				switch {
+				case z < 0:
+					continue // impossible valuation for an unsigned size
+				case z == 0:
+					if gotOK && (t[0].String() == "0" || t[0].String() == "conv[N](s)") {
+						e.S.Ok(rule, site, construct, "the size zero is reported representable", e.Pos(fn))
+					} else {
+						e.S.Bad(rule, site, construct, fmt.Sprintf("for the size zero Bytes returns (%v, ok=%v); zero is exactly representable in every numeric type", t[0], gotOK), e.Pos(fn), "Size(0)")
+					}
+					continue
+				}
+			}
 			want, determined := false, false
 			if k.max != "" {
 				maxKey := "s?" + cval(mathPkg, k.max).ExactString()
-				if v, asked := lf.Assign[maxKey]; asked && len(lf.Assign) == 1 {
+				if v, asked := lf.Assign[maxKey]; asked && nAtoms == 1 {
 					want, determined = v <= 0, true
 				}
-			} else if v, asked := lf.Assign["roundtrip"]; asked && len(lf.Assign) == 1 {
+			} else if v, asked := lf.Assign["roundtrip"]; asked && nAtoms == 1 {
 				want, determined = v == 0, true
 			}
 			switch {
